@@ -433,6 +433,47 @@ pub fn run_child(ctx: &Ctx) -> Report {
         base += n_l;
     }
 
+    // ---- (c3) Authorization headers as sequences of fields: every sequence of up to 4 (thorough 5) fields over ten
+    //      kinds (each parameter well-formed, empty or wrong, an unknown one, a bare word, an empty field), with and
+    //      without a blank after the commas; each once with the logger formatting every record it is handed
+    {
+        let good = String::from_utf8_lossy(&base_wire.headers.iter().find(|h| h.0.eq_ignore_ascii_case("authorization")).map(|h| h.1.clone()).unwrap_or_default()).to_string();
+        let field = |name: &str| -> String {
+            let start = good.find(name).unwrap_or(0);
+            let end = good[start..].find(',').map(|e| start + e).unwrap_or(good.len());
+            good[start..end].to_string()
+        };
+        let symbols: Vec<String> = vec![
+            field("Credential="),
+            "Credential=AKIDEXAMPLE/20150830/us-east-1".into(),
+            field("SignedHeaders="),
+            "SignedHeaders=".into(),
+            field("Signature="),
+            "Signature=00".into(),
+            "Signature=".into(),
+            "Unknown=x=y".into(),
+            "bare".into(),
+            String::new(),
+        ];
+        let k = symbols.len() as u64;
+        let depth = if thorough { 5u32 } else { 4 };
+        let n_seq = crate::enumr::seq_count(k, depth);
+        let n_f = n_seq * 4;
+        let b = base;
+        let part = par_sweep(n_f, |i, st| {
+            let seq = crate::enumr::seq_decode(i / 4, k, depth);
+            let sep = if (i / 2) % 2 == 0 { ", " } else { "," };
+            let fields: Vec<&str> = seq.iter().map(|s| symbols[*s as usize].as_str()).collect();
+            let mut w = base_wire.clone();
+            if let Some(h) = w.headers.iter_mut().find(|h| h.0.eq_ignore_ascii_case("authorization")) {
+                h.1 = format!("AWS4-HMAC-SHA256 {}", fields.join(sep)).into_bytes();
+            }
+            total(b + i, "authorization-field-sequence", w, &Cfg::basic(now), &std_prov, st);
+        });
+        st = st.merge(part);
+        base += n_f;
+    }
+
     // ---- (d) bodies
     let mut lens: Vec<usize> = vec![0, 1, 2, 3, 1000];
     lens.extend(21838..=21852);
@@ -798,7 +839,7 @@ pub fn run_child(ctx: &Ctx) -> Report {
     Report {
         stats: st,
         rule: format!(
-            "every case runs under catch_unwind inside a child process (abnormal termination = violation), with overflow checks and debug assertions on, alternately with log formatting on, against a strict key provider (panics when called without readiness; not ready at once / answer pending for a share of the cases): (a) the C13 defect product on both carriers x {{default,S3,fold}} x 3 requirement sets (incl. non-ASCII and empty names); (b) every printable ASCII byte substituted and inserted at every position of 5 URI templates, every two-character escape %c1c2 over 94^2 in path, query value and query name, 40 special URIs (asterisk-, authority-, absolute-form, truncated escapes, 40-60 kB paths / queries) x 2 carriers x 3 options; (b') 45 request targets of every form (origin, absolute, authority incl. bare host and IPv6, asterisk, empty, fragment, scheme without path) x 6 form bodies x 3 content types x {{default,S3,fold,S3+fold}} x carrier, so that the target is rebuilt under form folding; (c) every byte HeaderValue admits (tab, 0x20-0x7E, 0x80-0xFF) substituted and inserted at every{} position of Authorization / X-Amz-Date / Date / Content-Type / token values; (c') every empty, one-byte and two-byte value of a Content-Type parameter (charset in two spellings, boundary, a trailing parameter; form and JSON types) and of the Credential / SignedHeaders / Signature fields; (c'') SignedHeaders lists of 10..104 entries that differ in letter case only, in 7 structured arrangements x 8 rotations and 60 (thorough 400) fixed shuffles per length, on both carriers; (d) bodies of {} lengths (around 21845, 32768, 65535, up to 200000) x 8 fills (expanding bytes, pairs, UTF-8, separators, escapes) x 11 content types x fold x carrier; all 256 one-byte and every {}th two-byte body as a UTF-8 form; {} charset labels x all one-byte, every {}th two-byte and 4 special bodies; (e) 9 capacities x secret lengths 0..100 x 4 fills; (f) every C16 timestamp string on both carriers and through the unstable API; (f') server clocks within 901 s of the smallest and largest DateTime<Utc>, the epoch, years 0 / 1 / 9999 / 10000 and the 32-bit limits x 11 request dates whose UTC year is -1, 0, 9999 or 10000; (g) every subset of set fields of the three builders; (h) every SignatureError shape x 4 messages through Display/Debug/source/code/status/From<Box>; (i) derivation with empty / non-ASCII / 10 kB scopes and NaiveDate::MIN/MAX/year 0/-1/10000; canonicalisation helpers on degenerate and 1 MiB inputs. Oracle: a value or an error, never a panic, abort, hang or non-SignatureError. states = (sweep, outcome class)",
+            "every case runs under catch_unwind inside a child process whose address space is limited to 12 GiB and whose run time is limited by the parent (abnormal termination, allocation without bound and a case that never returns = violation), with overflow checks and debug assertions on, alternately with log formatting on, against a strict key provider (panics when called without readiness; not ready at once / answer pending for a share of the cases): (a) the C13 defect product on both carriers x {{default,S3,fold}} x 3 requirement sets (incl. non-ASCII and empty names); (b) every printable ASCII byte substituted and inserted at every position of 5 URI templates, every two-character escape %c1c2 over 94^2 in path, query value and query name, 40 special URIs (asterisk-, authority-, absolute-form, truncated escapes, 40-60 kB paths / queries) x 2 carriers x 3 options; (b') 45 request targets of every form (origin, absolute, authority incl. bare host and IPv6, asterisk, empty, fragment, scheme without path) x 6 form bodies x 3 content types x {{default,S3,fold,S3+fold}} x carrier, so that the target is rebuilt under form folding; (c) every byte HeaderValue admits (tab, 0x20-0x7E, 0x80-0xFF) substituted and inserted at every{} position of Authorization / X-Amz-Date / Date / Content-Type / token values; (c') every empty, one-byte and two-byte value of a Content-Type parameter (charset in two spellings, boundary, a trailing parameter; form and JSON types) and of the Credential / SignedHeaders / Signature fields; (c3) Authorization headers made of every sequence of up to 4 (thorough 5) fields over ten kinds (Credential / SignedHeaders / Signature each well-formed, wrong or empty, an unknown parameter, a bare word, an empty field) with ', ' or ',' between them, each with and without the logger formatting its records; (c'') SignedHeaders lists of 10..104 entries that differ in letter case only, in 7 structured arrangements x 8 rotations and 60 (thorough 400) fixed shuffles per length, on both carriers; (d) bodies of {} lengths (around 21845, 32768, 65535, up to 200000) x 8 fills (expanding bytes, pairs, UTF-8, separators, escapes) x 11 content types x fold x carrier; all 256 one-byte and every {}th two-byte body as a UTF-8 form; {} charset labels x all one-byte, every {}th two-byte and 4 special bodies; (e) 9 capacities x secret lengths 0..100 x 4 fills; (f) every C16 timestamp string on both carriers and through the unstable API; (f') server clocks within 901 s of the smallest and largest DateTime<Utc>, the epoch, years 0 / 1 / 9999 / 10000 and the 32-bit limits x 11 request dates whose UTC year is -1, 0, 9999 or 10000; (g) every subset of set fields of the three builders; (h) every SignatureError shape x 4 messages through Display/Debug/source/code/status/From<Box>; (i) derivation with empty / non-ASCII / 10 kB scopes and NaiveDate::MIN/MAX/year 0/-1/10000; canonicalisation helpers on degenerate and 1 MiB inputs. Oracle: a value or an error, never a panic, abort, hang or non-SignatureError. states = (sweep, outcome class)",
             if thorough { "" } else { " (every 3rd for Authorization)" }, lens.len(), two_stride, LABELS.len(), label_stride
         ),
         bounds: json!({"cases": base}),
@@ -813,20 +854,37 @@ pub fn run_child(ctx: &Ctx) -> Report {
 /// Parent: run the sweeps in a child process and turn an abnormal exit into a violation.
 pub fn run_parent(ctx: &Ctx) -> i32 {
     let me = std::env::current_exe().unwrap();
-    let status = std::process::Command::new(&me)
+    let child = std::process::Command::new(&me)
         .arg("--c08-child")
         .arg(ctx.tier.name())
         .env("VERIF_DIR", &ctx.verif_dir)
         .env("VERIF_SEED", ctx.seed.to_string())
-        .status();
-    let status = match status {
-        Ok(s) => s,
+        .spawn();
+    let mut child = match child {
+        Ok(c) => c,
         Err(e) => machinery_error(&format!("cannot start C08 child: {}", e)),
     };
+    // a case that never returns (a loop that neither finishes nor exhausts the child's address-space limit) ends here
+    let deadline = std::time::Instant::now() + std::time::Duration::from_secs(if ctx.tier.thorough() { 4 * 3600 } else { 20 * 60 });
+    let mut timed_out = false;
+    let status = loop {
+        match child.try_wait() {
+            Ok(Some(s)) => break s,
+            Ok(None) => {
+                if std::time::Instant::now() > deadline {
+                    timed_out = true;
+                    let _ = child.kill();
+                    break child.wait().unwrap_or_else(|e| machinery_error(&format!("cannot reap C08 child: {}", e)));
+                }
+                std::thread::sleep(std::time::Duration::from_millis(50));
+            }
+            Err(e) => machinery_error(&format!("cannot wait for C08 child: {}", e)),
+        }
+    };
     match status.code() {
-        Some(c) if c == core::EXIT_OK || c == core::EXIT_VIOLATION || c == core::EXIT_MACHINERY => c,
+        Some(c) if !timed_out && (c == core::EXIT_OK || c == core::EXIT_VIOLATION || c == core::EXIT_MACHINERY) => c,
         other => {
-            // abort / signal / stack overflow / OOM kill
+            // abort / signal / stack overflow / allocation failure under the address-space limit / wall-clock limit
             let progress = std::fs::read_to_string(progress_path(&ctx.verif_dir)).unwrap_or_default();
             let last: Vec<String> = progress.lines().map(|l| l.trim().to_string()).filter(|l| !l.is_empty()).collect();
             let mut st = Stats::new();
@@ -839,7 +897,7 @@ pub fn run_parent(ctx: &Ctx) -> i32 {
                 what: "abnormal-termination-of-the-engine".into(),
                 case: json!({"last_announced_cases": last, "exit": format!("{:?}", other), "status": format!("{:?}", status)}),
                 expected: "every case returns a value or an error".into(),
-                observed: format!("child process ended with {:?}", status),
+                observed: if timed_out { "child process did not finish within the wall-clock limit (a case never returned) and was killed".to_string() } else { format!("child process ended with {:?}", status) },
                 known: None,
             });
             let rep = Report {
@@ -860,6 +918,11 @@ pub fn child_main(args: &[String]) -> i32 {
     let verif_dir = std::env::var("VERIF_DIR").unwrap_or_else(|_| "/verif".to_string());
     let seed = std::env::var("VERIF_SEED").ok().and_then(|s| s.parse().ok()).unwrap_or(0);
     let ctx = Ctx { id: "C08".into(), tier, seed, verif_dir, started: std::time::Instant::now() };
+    // a case that allocates without bound must end this process (allocation failure aborts), not the machine
+    unsafe {
+        let lim = libc::rlimit { rlim_cur: 12 << 30, rlim_max: 12 << 30 };
+        libc::setrlimit(libc::RLIMIT_AS, &lim);
+    }
     let rep = run_child(&ctx);
     core::finish(&ctx, rep)
 }
